@@ -1,6 +1,7 @@
 #!/usr/bin/env python3
-"""Prints the markdown table 'which check catches which seeded change' from seeded/*/meta.json."""
-import json, os, re
+"""Prints the markdown table 'which check catches which seeded change' from seeded/*/meta.json;
+with --write it replaces the text between the SEED_TABLE markers in DESIGN.md."""
+import json, os, re, sys
 V = os.path.dirname(os.path.dirname(os.path.abspath(__file__)))
 rows = []
 for d in sorted(os.listdir(os.path.join(V, 'seeded'))):
@@ -14,5 +15,15 @@ for d in sorted(os.listdir(os.path.join(V, 'seeded'))):
     caught = [f"{p}: {', '.join(k.split('/', 1)[-1] for k in v.get('keys', [])[:2])}" for p, v in det.items() if v.get('rc') == 1]
     first = next((l.strip('# *-').strip() for l in m.get('needs_to_manifest', '').splitlines() if len(l.strip()) > 25), '')
     rows.append(f"| {d} | {', '.join(os.path.basename(f) for f in files)} | {first[:110]} | {'; '.join(caught) if caught else ('MISSED' if det else 'not run')} |")
-print('| seeded change | file(s) | what it is (from its notes) | caught by (witness keys) |\n|---|---|---|---|')
-print('\n'.join(rows))
+table = '| seeded change | file(s) | what it is (from its notes) | caught by (witness keys) |\n|---|---|---|---|\n' + '\n'.join(rows)
+if '--write' in sys.argv:
+    dp = os.path.join(V, 'DESIGN.md')
+    t = open(dp).read()
+    a, b = '<!-- SEED_TABLE_BEGIN -->', '<!-- SEED_TABLE_END -->'
+    n_caught = sum('MISSED' not in r and 'not run' not in r for r in rows)
+    head = f'{n_caught} of {len(rows)} seeded changes are reported by the quick tier of the checks named (last `detect all` run):\n\n'
+    t = t[:t.index(a) + len(a)] + '\n' + head + table + '\n' + t[t.index(b):]
+    open(dp, 'w').write(t)
+    print(f'DESIGN.md table rewritten: {n_caught}/{len(rows)}')
+else:
+    print(table)
